@@ -1012,3 +1012,400 @@ pub fn check_expects(root: &Obj, f: &crate::form::Form, expects: &[Expect]) -> R
     }
     Ok(())
 }
+
+// ---------------------------------------------------------------------------------------------
+// dynamic bindings and handlers (simple catalogue; the full expression language lives in lang.rs)
+
+#[derive(Clone, Debug, PartialEq)]
+pub enum DynKind {
+    /// property binding evaluated at run time: (property, setter function)
+    Binding { prop: String, setter: String },
+    /// signal handler: (signal name, number of arguments the signal's longest variant carries)
+    Handler { signal: String },
+}
+
+#[derive(Clone, Debug, PartialEq)]
+pub struct Dyn {
+    pub obj: Vec<usize>,
+    pub bind: usize,
+    pub kind: DynKind,
+}
+
+/// (class, property, type) usable as notifying sources
+const SOURCES: &[(&str, &str, &str)] = &[
+    ("QCheckBox", "checked", "bool"),
+    ("QPushButton", "checked", "bool"),
+    ("QGroupBox", "checked", "bool"),
+    ("QSpinBox", "value", "int"),
+    ("QSlider", "value", "int"),
+    ("QProgressBar", "value", "int"),
+    ("QLineEdit", "text", "str"),
+    ("QDoubleSpinBox", "value", "double"),
+    ("QComboBox", "currentText", "str"),
+    ("QTabWidget", "currentIndex", "int"),
+    ("QStackedWidget", "currentIndex", "int"),
+    ("VSrc", "i0", "int"),
+    ("VSrc", "b0", "bool"),
+    ("VSrc", "s0", "str"),
+    ("VSrc", "d0", "double"),
+];
+
+/// signals without true overloads in the Qt 5 metatypes: (class, signal, parameter list)
+const SIGNALS: &[(&str, &str, &[(&str, &str)])] = &[
+    ("QAbstractButton", "clicked", &[("c", "bool")]),
+    ("QAbstractButton", "toggled", &[("c", "bool")]),
+    ("QAbstractButton", "pressed", &[]),
+    ("QLineEdit", "textChanged", &[("t", "QString")]),
+    ("QLineEdit", "returnPressed", &[]),
+    ("QSlider", "valueChanged", &[("v", "int")]),
+    ("QDialogButtonBox", "accepted", &[]),
+    ("QDialogButtonBox", "rejected", &[]),
+    ("QAction", "triggered", &[("c", "bool")]),
+    ("QAction", "toggled", &[("c", "bool")]),
+    ("QComboBox", "currentTextChanged", &[("t", "QString")]),
+    ("QGroupBox", "toggled", &[("c", "bool")]),
+    ("QTabWidget", "currentChanged", &[("i", "int")]),
+    ("VSig", "fired", &[]),
+    ("VSig", "firedI", &[("i", "int")]),
+    ("VSig", "firedIS", &[("i", "int"), ("s", "QString")]),
+];
+
+pub struct SourceRef {
+    pub path: Vec<usize>,
+    pub id: String,
+    pub class: String,
+}
+
+/// Objects with ids whose class offers a notifying source property.
+pub fn sources_in(root: &Obj) -> Vec<SourceRef> {
+    root.flat()
+        .into_iter()
+        .filter_map(|(p, o)| {
+            let id = o.id.clone()?;
+            if kind_of(&o.class) != Kind::Widget {
+                return None;
+            }
+            Some(SourceRef { path: p, id, class: o.class.clone() })
+        })
+        .collect()
+}
+
+fn source_exprs(ch: &mut Chooser, srcs: &[SourceRef], ty: &str) -> Option<String> {
+    let m = meta();
+    // every widget notifies windowTitle
+    let mut cands: Vec<String> = vec![];
+    for s in srcs {
+        for (c, p, t) in SOURCES {
+            if *t == ty && m.derives(&s.class, c) {
+                cands.push(format!("{}.{}", s.id, p));
+            }
+        }
+        if ty == "str" {
+            cands.push(format!("{}.windowTitle", s.id));
+        }
+    }
+    if cands.is_empty() {
+        return None;
+    }
+    Some(ch.pick(&cands).clone())
+}
+
+/// A dynamic expression of the given type ("bool" | "int" | "double" | "str") over the sources.
+pub fn gen_dyn_expr(ch: &mut Chooser, srcs: &[SourceRef], ty: &str) -> Option<String> {
+    let k = ch.below(5);
+    Some(match (ty, k) {
+        ("bool", 0) | ("bool", 1) => source_exprs(ch, srcs, "bool")?,
+        ("bool", 2) => format!("!{}", source_exprs(ch, srcs, "bool")?),
+        ("bool", 3) => format!("{} > {}", source_exprs(ch, srcs, "int")?, ch.below(10)),
+        ("bool", _) => format!("{}.isEmpty()", source_exprs(ch, srcs, "str")?),
+        ("int", 0) | ("int", 1) => source_exprs(ch, srcs, "int")?,
+        ("int", 2) => format!("{} + {}", source_exprs(ch, srcs, "int")?, 1 + ch.below(9)),
+        ("int", 3) => format!("Math.max({}, {})", source_exprs(ch, srcs, "int")?, ch.below(50)),
+        ("int", _) => format!("{} ? {} : {}", source_exprs(ch, srcs, "bool")?, ch.below(10), 10 + ch.below(10)),
+        ("double", 0) | ("double", 1) | ("double", 2) => source_exprs(ch, srcs, "double")?,
+        ("double", _) => format!("{} * 2.5", source_exprs(ch, srcs, "double")?),
+        ("str", 0) | ("str", 1) => source_exprs(ch, srcs, "str")?,
+        ("str", 2) => format!("\"[\" + {} + \"]\"", source_exprs(ch, srcs, "str")?),
+        ("str", 3) => format!("{} ? qsTr(\"on\") : qsTr(\"off\")", source_exprs(ch, srcs, "bool")?),
+        ("str", _) => format!("qsTr(\"%1 items\").arg({})", source_exprs(ch, srcs, "int")?),
+        _ => return None,
+    })
+}
+
+/// Adds dynamic property bindings and signal handlers. Sources are objects that already have
+/// ids; call `plant_sources` first to make sure there are some.
+pub fn add_dynamic(ch: &mut Chooser, root: &mut Obj, per_obj_num: u32, per_obj_den: u32, dyns: &mut Vec<Dyn>) {
+    let srcs = sources_in(root);
+    let m = meta();
+    let root_id = root.id.clone();
+    let paths: Vec<Vec<usize>> = root.flat().into_iter().map(|(p, _)| p).collect();
+    let ids: Vec<(String, String)> = root.flat().iter().filter_map(|(_, o)| o.id.clone().map(|i| (i, o.class.clone()))).filter(|(_, c)| kind_of(c) == Kind::Widget).collect();
+    for p in paths {
+        let o = root.at(&p);
+        if is_separator(o) {
+            continue;
+        }
+        let k = kind_of(&o.class);
+        let class = o.class.clone();
+        let mut used: BTreeSet<String> = o.binds.iter().map(|b| first_seg(&b.path).to_owned()).collect();
+        // property bindings on widgets and actions
+        if matches!(k, Kind::Widget | Kind::Action) && !srcs.is_empty() {
+            let tries = if ch.chance(per_obj_num, per_obj_den) { 1 + ch.below(3) } else { 0 };
+            let props: Vec<PropInfo> = simple_props(&class).into_iter().filter(|p| matches!(p.ty, Ty::Bool | Ty::Int | Ty::Double | Ty::Str)).collect();
+            for _ in 0..tries {
+                if props.is_empty() {
+                    break;
+                }
+                let pi = ch.pick(&props).clone();
+                if used.contains(&pi.name) {
+                    continue;
+                }
+                let ty = match pi.ty {
+                    Ty::Bool => "bool",
+                    Ty::Int => "int",
+                    Ty::Double => "double",
+                    _ => "str",
+                };
+                if let Some(e) = gen_dyn_expr(ch, &srcs, ty) {
+                    used.insert(pi.name.clone());
+                    let o = root.at_mut(&p);
+                    o.binds.push(Bind::new(pi.name.clone(), e));
+                    dyns.push(Dyn { obj: p.clone(), bind: o.binds.len() - 1, kind: DynKind::Binding { prop: pi.name.clone(), setter: pi.write.clone().unwrap_or_default() } });
+                    ch.label("dynamic-binding");
+                }
+            }
+        }
+        // handlers
+        let sigs: Vec<&(&str, &str, &[(&str, &str)])> = SIGNALS.iter().filter(|(c, _, _)| m.derives(&class, c)).collect();
+        let n_handlers = if !sigs.is_empty() && ch.chance(per_obj_num, per_obj_den) { 1 + ch.weighted(&[60, 25, 15]) } else { 0 };
+        for _ in 0..n_handlers {
+            let (_, sig, params) = **ch.pick(&sigs);
+            let hname = format!("on{}", cap(sig));
+            if !used.insert(hname.clone()) {
+                continue;
+            }
+            let target = if !ids.is_empty() && ch.chance(3, 4) { Some(ch.pick(&ids).clone()) } else { None };
+            let np = ch.below(params.len() + 1);
+            let plist = params[..np].iter().map(|(n, t)| format!("{n}: {t}")).collect::<Vec<_>>().join(", ");
+            let stmt = match (&target, ch.below(5)) {
+                (Some((id, _)), 0) => format!("{id}.setFocus()"),
+                (Some((id, _)), 1) => format!("{id}.windowTitle = \"clicked\""),
+                (Some((id, _)), 2) => format!("{id}.enabled = !{id}.enabled"),
+                (Some((id, _)), 3) if np >= 1 && params[0].1 == "bool" => format!("{id}.visible = {}", params[0].0),
+                (Some((id, _)), 3) if np >= 1 && params[0].1 == "QString" => format!("{id}.toolTip = {}", params[0].0),
+                _ => match &root_id {
+                    Some(r) if ch.chance(1, 2) => format!("{r}.close()"),
+                    _ => "console.log(\"handler\")".to_owned(),
+                },
+            };
+            let text = if np > 0 {
+                format!("function({plist}) {{ {stmt} }}")
+            } else {
+                match ch.below(3) {
+                    0 => stmt.clone(),
+                    1 => format!("{{ {stmt} }}"),
+                    _ => format!("function() {{ {stmt} }}"),
+                }
+            };
+            let o = root.at_mut(&p);
+            o.binds.push(Bind::new(hname, text));
+            dyns.push(Dyn { obj: p.clone(), bind: o.binds.len() - 1, kind: DynKind::Handler { signal: sig.to_owned() } });
+            ch.label("signal-handler");
+        }
+    }
+}
+
+/// Swaps some leaf widgets for classes with notifying properties / plain signals and gives them
+/// ids, so that `add_dynamic` has something to read.
+pub fn plant_sources(ch: &mut Chooser, root: &mut Obj, num: u32, den: u32) {
+    let paths: Vec<Vec<usize>> = root.flat().into_iter().map(|(p, _)| p).collect();
+    let mut n = 0;
+    for p in paths {
+        let o = root.at_mut(&p);
+        if LEAF_WIDGETS.contains(&o.class.as_str()) && ch.chance(num, den) {
+            o.class = (*ch.pick(&["QCheckBox", "QSpinBox", "QLineEdit", "QSlider", "QDoubleSpinBox", "QComboBox", "VSrc", "QPushButton", "VSig", "QDialogButtonBox"])).to_owned();
+            if o.id.is_none() {
+                o.id = Some(format!("s{n}"));
+                n += 1;
+            }
+        }
+    }
+    if root.id.is_none() && ch.chance(1, 2) {
+        root.id = Some("root".to_owned());
+    }
+}
+
+// ---------------------------------------------------------------------------------------------
+// planted faults
+
+#[derive(Clone, Debug, PartialEq)]
+pub enum FaultSite {
+    /// a faulty binding was appended to the object: (object path, binding index)
+    Bind { obj: Vec<usize>, bind: usize },
+    /// a faulty child object was inserted at this path
+    Object { path: Vec<usize> },
+}
+
+#[derive(Clone, Debug, PartialEq)]
+pub struct Fault {
+    pub kind: &'static str,
+    pub site: FaultSite,
+}
+
+pub const BINDING_FAULTS: &[&str] = &[
+    "unknown-property", "unknown-signal", "ill-typed-constant", "ill-typed-dynamic", "unsupported-expression", "dynamic-to-read-only",
+    "unknown-attached-type", "no-attached-class", "unused-attached", "handler-on-non-signal", "handler-as-map", "invalid-color", "duplicate-property",
+    "duplicate-attached",
+];
+pub const OBJECT_FAULTS: &[&str] = &["unknown-object-type", "invalid-object-type"];
+
+/// Plants exactly one fault of one of the `allowed` kinds on a random object of an otherwise
+/// accepted document. Returns None when no object can host the chosen kind.
+pub fn plant_fault(ch: &mut Chooser, root: &mut Obj, allowed: &[&'static str]) -> Option<Fault> {
+    let kind = *ch.pick(allowed);
+    let flat: Vec<(Vec<usize>, String, bool)> = root.flat().into_iter().map(|(p, o)| (p, o.class.clone(), is_separator(o))).collect();
+    let widgets: Vec<&(Vec<usize>, String, bool)> = flat.iter().filter(|(_, c, _)| kind_of(c) == Kind::Widget).collect();
+    let hosts: Vec<&(Vec<usize>, String, bool)> = flat.iter().filter(|(_, c, s)| matches!(kind_of(c), Kind::Widget | Kind::Action | Kind::Layout) && !*s).collect();
+    let mut push = |root: &mut Obj, p: &Vec<usize>, path: &str, value: &str| -> Fault {
+        let o = root.at_mut(p);
+        o.binds.push(Bind::new(path, value));
+        Fault { kind, site: FaultSite::Bind { obj: p.clone(), bind: o.binds.len() - 1 } }
+    };
+    let free = |root: &Obj, p: &Vec<usize>, name: &str| !root.at(p).binds.iter().any(|b| first_seg(&b.path) == name);
+    if widgets.is_empty() || hosts.is_empty() {
+        return None;
+    }
+    match kind {
+        "unknown-property" => {
+            let h = (*ch.pick(&hosts)).0.clone();
+            Some(push(root, &h, *ch.pick(&["bogusProp", "txet", "windowtitle", "Text2"].iter().filter(|n| n.starts_with(|c: char| c.is_ascii_lowercase())).copied().collect::<Vec<_>>()), "1"))
+        }
+        "unknown-signal" => {
+            let h = (*ch.pick(&hosts)).0.clone();
+            Some(push(root, &h, "onBogusHappened", "console.log(\"x\")"))
+        }
+        "ill-typed-constant" => {
+            let w = (*ch.pick(&widgets)).0.clone();
+            let (n, v) = *ch.pick(&[("windowTitle", "1"), ("enabled", "\"yes\""), ("toolTip", "true"), ("minimumWidth", "1.5"), ("minimumHeight", "\"3\""), ("windowOpacity", "1"), ("focusPolicy", "3"), ("toolTip", "1 + \"a\"")]);
+            free(root, &w, n).then(|| push(root, &w, n, v))
+        }
+        // the result type of a dynamic binding is only checked by the C++ pass (generate mode)
+        "ill-typed-dynamic" => {
+            let w = (*ch.pick(&widgets)).0.clone();
+            let (n, v) = *ch.pick(&[("enabled", "windowTitle"), ("toolTip", "windowTitle + 1"), ("minimumWidth", "windowTitle"), ("statusTip", "windowTitle ? \"a\" : \"b\""), ("whatsThis", "windowTitle.isEmpty()")]);
+            free(root, &w, n).then(|| push(root, &w, n, v))
+        }
+        // type errors among the operands are found while the expression is built (every mode)
+        "ill-typed-dynamic-operands" => {
+            let w = (*ch.pick(&widgets)).0.clone();
+            let (n, v) = *ch.pick(&[("toolTip", "windowTitle + 1"), ("statusTip", "windowTitle ? \"a\" : \"b\""), ("whatsThis", "windowTitle - \"x\""), ("toolTip", "!windowTitle ? \"a\" : \"b\""), ("minimumWidth", "Math.max(windowTitle, 1)")]);
+            free(root, &w, n).then(|| push(root, &w, n, v))
+        }
+        "unsupported-expression" => {
+            let w = (*ch.pick(&widgets)).0.clone();
+            let (n, v) = *ch.pick(&[("toolTip", "typeof 1"), ("toolTip", "`tpl`"), ("minimumWidth", "2 ** 3"), ("minimumWidth", "1 >>> 1"), ("enabled", "1 in [1]"), ("toolTip", "windowTitle ?? \"x\""), ("minimumWidth", "(function() { return 1 })()"), ("toolTip", "{ for (;;) {} }")]);
+            free(root, &w, n).then(|| push(root, &w, n, v))
+        }
+        "dynamic-to-read-only" => {
+            let w = (*ch.pick(&widgets)).0.clone();
+            let (n, v) = *ch.pick(&[("width", "windowTitle.isEmpty() ? 1 : 2"), ("height", "windowTitle.isEmpty() ? 1 : 2"), ("x", "minimumWidth"), ("isActiveWindow", "true")]);
+            free(root, &w, n).then(|| push(root, &w, n, v))
+        }
+        "unknown-attached-type" => {
+            let h = (*ch.pick(&hosts)).0.clone();
+            Some(push(root, &h, *ch.pick(&["Bogus.row", "QBogusLayout.column", "Keys.onPressed"].iter().filter(|s| !s.contains("on")).copied().collect::<Vec<_>>()), "1"))
+        }
+        "no-attached-class" => {
+            let h = (*ch.pick(&hosts)).0.clone();
+            Some(push(root, &h, *ch.pick(&["QLabel.row", "QWidget.title", "QAction.text"]), "1"))
+        }
+        "unused-attached" => {
+            // QLayout.* on an object whose parent is not a layout; QTabWidget.* outside a tab widget
+            let cands: Vec<&(Vec<usize>, String, bool)> = flat
+                .iter()
+                .filter(|(p, c, s)| {
+                    !*s && matches!(kind_of(c), Kind::Widget | Kind::Action)
+                        && (p.is_empty() || kind_of(&root.at(&p[..p.len() - 1]).class) != Kind::Layout)
+                })
+                .collect();
+            if cands.is_empty() {
+                return None;
+            }
+            let h = (*ch.pick(&cands)).0.clone();
+            let in_tab = !h.is_empty() && root.at(&h[..h.len() - 1]).class == "QTabWidget";
+            let opts: Vec<(&str, &str)> = if in_tab { vec![("QLayout.row", "1"), ("QLayout.alignment", "Qt.AlignLeft")] } else { vec![("QLayout.row", "1"), ("QLayout.columnStretch", "2"), ("QTabWidget.title", "\"t\""), ("QLayout.alignment", "Qt.AlignLeft")] };
+            let (n, v) = *ch.pick(&opts);
+            let attached_type = n.split('.').next().unwrap();
+            // must not join an attached group the document already uses on this object
+            if root.at(&h).binds.iter().any(|b| b.path.starts_with(attached_type)) {
+                return None;
+            }
+            Some(push(root, &h, n, v))
+        }
+        "handler-on-non-signal" => {
+            let w = (*ch.pick(&widgets)).0.clone();
+            Some(push(root, &w, *ch.pick(&["onSetFocus", "onClose", "onUpdate"]), "console.log(\"x\")"))
+        }
+        "handler-as-map" => {
+            let cands: Vec<&&(Vec<usize>, String, bool)> = widgets.iter().filter(|(_, c, _)| meta().derives(c, "QAbstractButton")).collect();
+            if cands.is_empty() {
+                return None;
+            }
+            let w = (**ch.pick(&cands)).0.clone();
+            free(root, &w, "onClicked").then(|| push(root, &w, "onClicked.x", "1"))
+        }
+        "invalid-color" => {
+            let w = (*ch.pick(&widgets)).0.clone();
+            free(root, &w, "palette").then(|| push(root, &w, "palette.window", *ch.pick(&["\"#wtf\"", "\"notacolor\"", "\"#12345\"", "\"\""])))
+        }
+        "duplicate-property" => {
+            let w = (*ch.pick(&widgets)).0.clone();
+            let n = *ch.pick(&["toolTip", "statusTip", "whatsThis"]);
+            if !free(root, &w, n) {
+                return None;
+            }
+            root.at_mut(&w).binds.push(Bind::new(n, "\"first\""));
+            Some(push(root, &w, n, "\"second\""))
+        }
+        "duplicate-attached" => {
+            // second QLayout.row on a child of a grid layout
+            let cands: Vec<&(Vec<usize>, String, bool)> = flat
+                .iter()
+                .filter(|(p, c, _)| !p.is_empty() && kind_of(c) == Kind::Widget && matches!(root.at(&p[..p.len() - 1]).class.as_str(), "QGridLayout" | "QFormLayout"))
+                .collect();
+            if cands.is_empty() {
+                return None;
+            }
+            let h = (*ch.pick(&cands)).0.clone();
+            if root.at(&h).binds.iter().any(|b| b.path == "QLayout.alignment") {
+                return None;
+            }
+            root.at_mut(&h).binds.push(Bind::new("QLayout.alignment", "Qt.AlignLeft"));
+            Some(push(root, &h, "QLayout.alignment", "Qt.AlignRight"))
+        }
+        "unknown-object-type" | "invalid-object-type" => {
+            // a child object of unknown / non-class type under a widget, layout or menu
+            let cands: Vec<&(Vec<usize>, String, bool)> = flat.iter().filter(|(_, c, s)| !*s && matches!(kind_of(c), Kind::Widget | Kind::Layout) && c != "QTabWidget").collect();
+            if cands.is_empty() {
+                return None;
+            }
+            let h = (*ch.pick(&cands)).0.clone();
+            let cls = if kind == "unknown-object-type" { *ch.pick(&["Bogus", "QBogusWidget", "Labell", "QStringList"]) } else { "QVariant" /* a type without class representation; QString, QFont, ... are classes for the translator */ };
+            let mut child = Obj::new(cls);
+            // give the faulty object a subtree and bindings of its own: all of it must vanish
+            if ch.chance(1, 2) {
+                child.binds.push(Bind::new("text", "\"gone\""));
+            }
+            if ch.chance(1, 2) {
+                child.children.push(Obj::new("QLabel").bind("text", "\"gone too\""));
+            }
+            let n = root.at(&h).children.len();
+            let pos = ch.below(n + 1);
+            root.at_mut(&h).children.insert(pos, child);
+            let mut p = h.clone();
+            p.push(pos);
+            Some(Fault { kind, site: FaultSite::Object { path: p } })
+        }
+        _ => None,
+    }
+}
